@@ -43,8 +43,8 @@ class Harness(Proc):
         super().__init__([HARNESS_BIN[build]])
         self.build = build
 
-    def reset(self, contract, chain_prefix, addr):
-        return self.call({"op": "reset", "contract": contract, "chain_prefix": chain_prefix, "addr": addr})
+    def reset(self, contract, chain_prefix, addr, chain_id=None):
+        return self.call({"op": "reset", "contract": contract, "chain_prefix": chain_prefix, "addr": addr, "chain_id": chain_id})
 
     def env(self, time_ns, height, tx):
         return self.call({"op": "env", "time": str(time_ns), "height": height, "tx": tx})
